@@ -208,6 +208,11 @@ fn gen_font_full(space: bool, ign_mapped: bool, spec: &[(u32, u32)], gdef_class:
         }
         cps.extend([0x115F, 0x1160, 0x3164, 0xFFA0]);
     }
+    if kern {
+        // the search-only fonts also map two combining marks and NOT the precomposed letters built from them: the
+        // normalizer decomposes U+00E1 / U+00E9 / U+1E0D there (a buffer-wide step that must not disturb the ignorables)
+        cps.extend([0x0301, 0x0323]);
+    }
     cps.sort();
     cps.dedup();
     let mut groups: Vec<(u32, u32, u32)> = Vec::new();
@@ -499,6 +504,13 @@ fn shape(face: &Face, text: &[u32], dir: Option<Direction>, flags: u32, level: u
         if let Some(d) = dir {
             b.set_direction(d);
         }
+        // Texts with precomposed Latin letters (which some fonts decompose into letter + mark) are shaped with the
+        // script set by the caller: otherwise an inserted ignorable that has a script of its own (U+17B4/U+17B5 Khmer,
+        // U+061C Arabic, U+180B.. Mongolian) changes the GUESSED script of the run and with it the shaper's treatment
+        // of the decomposed marks - a different request, not a different treatment of the ignorable.
+        if text.iter().any(|c| matches!(*c, 0xE1 | 0xE9 | 0x1E0D)) {
+            b.set_script(rustybuzz::script::LATIN);
+        }
         b.set_flags(BufferFlags::from_bits_truncate(flags));
         b.set_cluster_level(level_of(level));
         let gb = rustybuzz::shape(&face, &[], b);
@@ -639,8 +651,8 @@ fn predicate(c: &Case) -> Result<Option<String>, String> {
     let mut with = c.text.to_vec();
     with.insert(c.pos, c.cp);
     let out = shape(c.face, &with, Some(c.dir), c.flags, c.level).map_err(|e| format!("panic:{}", e))?;
-    if base.len() != c.text.len() {
-        return Err(format!("base-length {}!={}", base.len(), c.text.len()));
+    if base.len() < c.text.len() {
+        return Err(format!("base-length {}<{}", base.len(), c.text.len()));
     }
     predicate_on(c, &base, &with, &out, false)?;
     Ok(predicate_on(c, &base, &with, &out, true).err())
@@ -773,7 +785,9 @@ fn search(args: &[String]) {
     fonts.push(gen_font_full(true, true, &spec, None, true));
     fonts.push(gen_font_full(false, false, &spec, None, true));
     let faces: Vec<Face> = fonts.iter().map(|f| Face::from_slice(&f.data, 0).expect("generated font")).collect();
-    let letters = letters();
+    let mut letters = letters();
+    // precomposed letters no font maps: .notdef where the font lacks the pieces, decomposed where it has them
+    letters.extend([0xE1, 0xE9, 0x1E0D]);
     let mut r = Rng::new(seed ^ 0xC135);
     let cps = if all { spec_cps(&spec) } else { sample_cps(&spec, &mut r, 60) };
     let _ = &letters;
